@@ -61,6 +61,27 @@ SUMMARY = {
  "C18-c": ("error classification by substring instead of prefix", "Grbl status report in state Alarm"),
  "C19-c": ("raster _interpolate_line evaluates the spline directly (no outside-the-image zero)", "sample_path line with a pixel outside an image with non-zero border"),
  "C20-c": ("hooks get to_absolute(point.resolve())", "hook + absolute mode + move omitting an axis whose coordinate is non-zero"),
+ "C15-c": ("startprint(): `clear = False` moved after the M110 reset is written", "the M110's ok handled by the reader before startprint reaches the assignment (fast device + one pre-emption)"),
+ "C01-d1": ("_update_axes: F/S validation merged after the position is stored", "motion call rejected for its F/S word, caller carries on: tracked position was never emitted"),
+ "C01-d2": ("rapid(): write() before _update_axes()", "axes bounds + rapid to a target outside: G0 emitted but not tracked"),
+ "C02-d1": ("code table: BedTemperature.KELVIN mapped to M190", "set_temperature_units('kelvin') + tool or coolant on + set_bed_temperature"),
+ "C02-d2": ("_set_spin_mode stores flag/mode before the (validating) power setter", "tool-power bounds with lo > 0, tool_on inside them, then tool_off/emergency_halt"),
+ "C03-d1": ("_get_user_param no longer upper-cases keyword names", "temperature bound + halt(wait-for-*, s=...) with a lower-case keyword"),
+ "C03-d2": ("up-front _validate_axes removed from _update_axes (core commits before the state rejects)", "axes box, relative mode, a rejected move, then relative moves back: machine driven outside the box"),
+ "C04-d1": ("pivot translation matrix built from point[:2] (pivot z dropped)", "set_pivot with z != 0 and a transform involving Z"),
+ "C04-d2": ("restore_state(name) installs the stored object (alias)", "save n, restore n, chain, restore n again, move (C13's domain)"),
+ "C05-d1": ("GState._set_axes validates axes.resolve() (unknown treated as 0)", "axes box excluding 0 + a command that leaves an axis unknown (auto_home, probe, single-axis set_axis)"),
+ "C05-d2": ("set_chamber_temperature stores the target before building the statement", "set_chamber_temperature(nan|inf) without chamber bounds"),
+ "C06-d1": ("emergency_halt ends with self.stop()/self.pause() (reset not forwarded)", "emergency_halt(msg, reset=True) ends with M02"),
+ "C06-d2": ("new interlock: coolant_off refused while the tool runs", "coolant on + tool on + coolant_off()"),
+ "C07-d1": ("_get_user_param no longer upper-cases keyword names", "halt(wait-for-*, s=...) lower-case: emitted but target temperature not tracked"),
+ "C07-d2": ("_set_tool_number assigns before the interlock checks", "tool or coolant on + rejected tool_change: state reports the new tool"),
+ "C08-d1": ("closing delimiter deleted instead of replaced (same as C09-a)", "style /* and text with nested closing delimiter: two comments on a line"),
+ "C08-d2": ("number() via f-string + rstrip (same idea as C01-b)", "decimal_places=0"),
+ "C09-d1": ("comment(message, *args): only message goes through format.comment()", "comment with extra args under a delimited style or with a line break in an arg"),
+ "C09-d2": ("line breaks flattened with replace('\\r\\n').replace('\\n')", "text with a lone CR"),
+ "C10-d1": ("helix base angle computed with modulo instead of enforce()", "target exactly on the start ray (angular difference 0): one turn missing"),
+ "C10-d2": ("arc_radius chord length includes the Z displacement", "arc_radius with a target that also changes Z"),
 }
 rows = []
 for mp in sorted(glob.glob("/verif/seeded/*/meta.json")):
